@@ -69,6 +69,21 @@ def value_expr(is_enum, vi, kind, n, base, pat=None):
     return path
 
 
+# (declaration, a, b, Debug of a after a.clone_from(&b), the calls recorded)
+RECURSIVE = [
+    ('pub struct N { pub v: Rc_, pub next: Option<Box<N>> }',
+     'N { v: Rc_(1), next: Some(Box::new(N { v: Rc_(2), next: None })) }',
+     'N { v: Rc_(11), next: Some(Box::new(N { v: Rc_(12), next: None })) }',
+     'N { v: Rc_(1011), next: Some(N { v: Rc_(1012), next: None }) }', 'clone_from:1<-11,clone_from:2<-12'),
+    ('pub enum L { Nil, Cons(Rc_, Box<L>) }',
+     'L::Cons(Rc_(1), Box::new(L::Cons(Rc_(2), Box::new(L::Nil))))',
+     'L::Cons(Rc_(11), Box::new(L::Cons(Rc_(12), Box::new(L::Nil))))',
+     'Cons(Rc_(1011), Cons(Rc_(1012), Nil))', 'clone_from:1<-11,clone_from:2<-12'),
+    # (a GENERIC recursive type gets the cyclic bound `Option<Box<T<A>>>: Clone` and never implements Clone: the documented
+    # field-type bounds; recursive shapes are outside C12 as well)
+]
+
+
 class C07(Prop):
     pid = 'C07'
     tag = 'body of the Clone impl'
@@ -162,6 +177,23 @@ class C07(Prop):
             src.append('}')
             expect[r.cid] = exp
             mods.append(l2.Module(r.cid, '\n'.join(src), r))
+        # recursive types (hand-written): `clone_from` on the same variant reaches the recording fields behind the recursive
+        # link through the link's own `clone_from` (Option / Box forward it), never by cloning them afresh
+        class _Lit:
+            def __init__(self, text):
+                self.text, self.meta = text, dict(nontrivial=True)
+            def input_text(self):
+                return self.text
+        for k, (decl, a, b, want_a, want_log) in enumerate(RECURSIVE):
+            for mode in ('A', 'D'):
+                cid = 5 * 10 ** 6 + 2 * k + (mode == 'D')
+                head = '#[::derive_ex::derive_ex(Clone)]\n' if mode == 'A' else '#[derive(::derive_ex::Ex)]\n#[derive_ex(Clone)]\n'
+                src = ['#[derive(Debug, PartialEq)]\n' + head + decl, 'pub fn run() {',
+                       '    let mut a = %s; let b = %s; let _ = take_log(); a.clone_from(&b); '
+                       'println!("%d\\trec\\t{:?}\\t{}", a, take_log()); }' % (a, b, cid)]
+                expect[cid] = [('rec', want_a, want_log)]
+                text = ('#[derive_ex(Clone)] ' if mode == 'A' else '#[derive(Ex)] #[derive_ex(Clone)] ') + decl
+                mods.append(l2.Module(cid, '\n'.join(src), _Lit(text)))
         exes = l2.compile_parallel([('c07', mods)], prelude=PRELUDE)
         obs = {}
         if exes['c07']:
